@@ -15,7 +15,7 @@ plan = semops.plan
 def judge(acc, source, spec, model, idx, sem_t, sem_c, tags, cls, payload, op=None):
     from flamapy.metamodels.fm_metamodel.operations import FMAtomicSets
     W = "FMAtomicSets"
-    ok, res = guard(acc, cls, W, tags, payload, lambda: (op or FMAtomicSets()).execute(model).get_result())
+    ok, res = guard(acc, cls, W, tags, payload, lambda: semops.call_under_default_limit(spec, lambda: (op or FMAtomicSets()).execute(model).get_result()))
     if not ok:
         return
     key = S.digest(spec) if S.feature_names(spec)[1:] else None
